@@ -136,6 +136,42 @@ func checkC17(p *Prog, r *Report) {
 		ranged = compact
 	}
 
+	/* The sorted list with the dot-names taken out in one go
+	(slices.DeleteFunc keeps the order of what it keeps). */
+	if nil != ranged {
+		eachInstr(fd, func(i ssa.Instruction) {
+			c, ok := i.(*ssa.Call)
+			if !ok || !strings.HasPrefix(calleeName(c.Common()), "slices.DeleteFunc") || 2 != len(c.Common().Args) || c.Common().Args[0] != ranged {
+				return
+			}
+			pred, _ := closureOf(c.Common().Args[1])
+			if nil == pred || 1 != len(pred.Params) || nil == pred.Blocks {
+				return
+			}
+			isDot := true
+			nret := 0
+			eachInstr(pred, func(j ssa.Instruction) {
+				ret, isRet := j.(*ssa.Return)
+				if !isRet {
+					return
+				}
+				nret++
+				hc, isCall := ret.Results[0].(*ssa.Call)
+				if !isCall || "strings.HasPrefix" != calleeName(hc.Common()) || hc.Common().Args[0] != ssa.Value(pred.Params[0]) {
+					isDot = false
+					return
+				}
+				if pre, isC := constString(hc.Common().Args[1]); !isC || "." != pre {
+					isDot = false
+				}
+			})
+			if isDot && 1 == nret {
+				ranged = c
+				dotAtCollection = true
+			}
+		})
+	}
+
 	/* 2. Per-file loop: loads of elements of the ranged slice. */
 	if nil != ranged {
 		var elem *ssa.UnOp
